@@ -92,3 +92,13 @@ add("C20",
     "statement's laws by an independent oracle; flattened() and operand purity are checked on the real objects.",
     "Guards: class declarations that are redundant with inherited ones are not generated (C01 allows dropping them, which would make 'declared then inherited' ambiguous).",
     "Lean 4 proof (ordered-set laws by structural / mutual induction over nested arguments) + differential correspondence + statement oracle", "6/C20")
+add("C15",
+    "Theorems: C15_agree / C15_present (namesAndDescriptions(all=True) binds every name exactly as get / __getitem__ / queryDescriptionFor: first direct "
+    "definition along __iro__; present iff some member defines it), C15_get + get_memoOk + setBases_memoOk (the _v_attrs memo never changes an answer: a consistent "
+    "memo stays consistent under get and under re-basing, given that every rewritten order is visited by changed()), C15_tags / C15_tag_first (nearest definition, "
+    "union of tags), C15_invariants (every invariant along __iro__ runs in order; all failures collected, first raised), C15_follow (= C02_fresh: the cached __iro__ "
+    "after ANY re-basing history is the freshly computed one), C15_pinned_violates (README diamond, kernel-checked). The model with memo is compared with both twins "
+    "on re-basing histories with warmed memos; all accessors are cross-checked on the real objects and judged against the statement on an __iro__ computed by "
+    "CPython's own MRO from the current bases.",
+    "stated_not_proved: the composition of setBases_memoOk's proviso with the Graph2 history invariant (it is the first conjunct of ZI.Prop.prop_spec).",
+    "Lean 4 proof (dict-update lemma, memo invariant, C02 history invariant) + differential correspondence + statement oracle on CPython-MRO orders", "6/C15")
